@@ -67,7 +67,7 @@ def run_case(ctx, case):
         hi_c = neg * (1 << (width - 1 - fb)) + Ec
         bits = hi_c * (1 << fb) + F.t
         st.tags[("split", bits.get_id())] = (bits, fb, hi_c, F.t)
-    contracts = {"normalize": K.c_normalize, "i128_magnitude": K.c_magnitude}
+    contracts = {"normalize": K.c_normalize, "i128_magnitude": K.c_magnitude_alts}
     ex = new_executor(ctx, prog, contracts=contracts, unwind=25)
 
     def digit_loop_invariant(v, j, st_):
